@@ -153,7 +153,11 @@ Proof. unfold op_static. intros E. injection E as ? ? ? ? ? ?. auto. Qed.
 (* ---------- the invariant ---------- *)
 Record ask_ok (s : sys) : Prop := mkAskOk {
   (* an ask waiting for its reply was accepted by its target's mailbox *)
-  ak_wait : forall o p, get_op s o = Some p -> o_ph p = OWaitReply -> In (EvAccept (o_tgt p) o KAsk) (s_trace s);
+  ak_wait : forall o p, get_op s o = Some p -> o_ph p = OWaitReply ->
+      o_kind p = KAsk /\ In (EvAccept (o_tgt p) o KAsk) (s_trace s);
+  (* a tell that returned Ok was accepted by its target's mailbox *)
+  ak_tell : forall o p v, get_op s o = Some p -> o_kind p = KTell -> o_ph p = ODone (ROk v) ->
+      In (EvAccept (o_tgt p) o KTell) (s_trace s);
   (* an accepted ask whose reply slot is still untouched is either queued in an open mailbox or
      is the envelope the actor's handler is running on *)
   ak_slot : forall a x o p, get_actor s a = Some x -> In (o, KAsk) (a_accepted x) -> get_op s o = Some p ->
@@ -252,24 +256,45 @@ Qed.
 
 Theorem ask_ok_step s l : q_ok s -> ask_ok s -> ask_ok (sys_step s l).
 Proof.
-  intros Hq [Hw Hsl Hv Hd]. constructor.
+  intros Hq [Hw Ht Hsl Hv Hd]. constructor.
   - (* ak_wait *)
     intros o p' Hp' Hph. destruct (get_op s o) as [p|] eqn:Hp.
     + destruct (op_step_cases s l o p Hp) as (p'' & Hp'' & HC). rewrite Hp' in Hp''. injection Hp'' as <-.
       pose proof (get_op_id s o p Hp) as Hid.
+      assert (Hold : o_ph p = OWaitReply -> o_kind p = KAsk /\ In (EvAccept (o_tgt p) o KAsk) (s_trace (sys_step s l))).
+      { intros E. destruct (Hw o p Hp E) as [E1 E2]. split; [exact E1|apply step_trace_in, E2]. }
       destruct HC as [->|evs _ _ HS HC|_ _ ->|evs _ HC].
-      * apply step_trace_in. apply (Hw o p Hp Hph).
-      * destruct (static_fields _ _ (os_static _ _ _ _ _ _ HS)) as (_ & _ & Et). rewrite Et.
+      * apply Hold, Hph.
+      * destruct (static_fields _ _ (os_static _ _ _ _ _ _ HS)) as (_ & Ek & Et). rewrite Et, Ek.
         inversion HC; subst; try congruence.
-        -- apply step_trace_in. apply (Hw (o_id p) p Hp). congruence.
-        -- rewrite (os_trace _ _ _ _ _ _ HS). left. reflexivity.
+        -- apply Hold. congruence.
+        -- split; [assumption|]. rewrite (os_trace _ _ _ _ _ _ HS). left. reflexivity.
       * discriminate.
-      * destruct (slot_case_static _ _ _ HC) as (Eph & Est & _). destruct (static_fields _ _ Est) as (_ & _ & Et).
-        rewrite Et. apply step_trace_in. apply (Hw o p Hp). congruence.
-    + destruct (step_new_op s l o p' Hp Hp') as (k & a & caller & tmo & fn & q & s1 & evs & -> & Hid & Hk & Ht & _ & Hqph & Hqsl & HS & HB & _ & _ & _ & _).
-      destruct (static_fields _ _ (os_static _ _ _ _ _ _ HS)) as (_ & _ & Et). rewrite Et.
+      * destruct (slot_case_static _ _ _ HC) as (Eph & Est & _). destruct (static_fields _ _ Est) as (_ & Ek & Et).
+        rewrite Et, Ek. apply Hold. congruence.
+    + destruct (step_new_op s l o p' Hp Hp') as (k & a & caller & tmo & fn & q & s1 & evs & -> & Hid & Hk & Htg & _ & Hqph & Hqsl & HS & HB & _ & _ & _ & _).
+      destruct (static_fields _ _ (os_static _ _ _ _ _ _ HS)) as (_ & Ek & Et). rewrite Et, Ek.
       inversion HB; subst; try congruence.
-      rewrite (os_trace _ _ _ _ _ _ HS). left. reflexivity.
+      split; [assumption|]. rewrite (os_trace _ _ _ _ _ _ HS). left. reflexivity.
+  - (* ak_tell *)
+    intros o p' v Hp' Hk' Hph'. destruct (get_op s o) as [p|] eqn:Hp.
+    + destruct (op_step_cases s l o p Hp) as (p'' & Hp'' & HC). rewrite Hp' in Hp''. injection Hp'' as <-.
+      pose proof (get_op_id s o p Hp) as Hid.
+      pose proof (op_case_static _ _ _ _ _ HC) as Est. destruct (static_fields _ _ Est) as (_ & Ek & Et). rewrite Et.
+      assert (Hold : o_ph p = ODone (ROk v) -> In (EvAccept (o_tgt p) o KTell) (s_trace (sys_step s l))).
+      { intros E. apply step_trace_in. eapply Ht; [exact Hp|congruence|exact E]. }
+      destruct HC as [->|evs _ Hnd HS HC|_ _ ->|evs _ HC].
+      * apply Hold, Hph'.
+      * inversion HC; subst; try congruence.
+        -- apply Hold. congruence.
+        -- rewrite (os_trace _ _ _ _ _ _ HS). right. left. congruence.
+        -- match goal with H : o_ph p = OWaitReply |- _ => destruct (Hw _ p Hp H) as [E _] end. congruence.
+      * discriminate.
+      * destruct (slot_case_static _ _ _ HC) as (Eph & _ & _). apply Hold. congruence.
+    + destruct (step_new_op s l o p' Hp Hp') as (k & a & caller & tmo & fn & q & s1 & evs & -> & Hid & Hk & Htg & _ & Hqph & Hqsl & HS & HB & _ & _ & _ & _).
+      destruct (static_fields _ _ (os_static _ _ _ _ _ _ HS)) as (_ & Ek & Et). rewrite Et.
+      inversion HB; subst; try congruence.
+      rewrite (os_trace _ _ _ _ _ _ HS). right. left. congruence.
   - (* ak_slot *)
     intros a y o p' Hy Hin Hp' Hse.
     destruct (step_shape s l) as [Hl H1 H2|a0 x0 f fo evs Hl Hx0 HL E|a0 x0 f fo evs Hx0 HD E|E].
@@ -317,7 +342,7 @@ Proof.
         -- cbn in Hs'. injection Hs' as <-. exists a, out. split; [|auto]. rewrite Hid in Hin.
            destruct Htr as (es & [->| ->]); apply in_or_app; left; exact Hin.
         -- discriminate.
-    + destruct (step_new_op s l o p' Hp Hp') as (k & a & caller & tmo & fn & q & s1 & evs & -> & Hid & Hk & Ht & _ & Hqph & Hqsl & HS & HB & _ & _ & _ & _).
+    + destruct (step_new_op s l o p' Hp Hp') as (k & a & caller & tmo & fn & q & s1 & evs & -> & Hid & Hk & Htg & _ & Hqph & Hqsl & HS & HB & _ & _ & _ & _).
       rewrite (os_slot _ _ _ _ _ _ HS), Hqsl in Hs'. discriminate.
   - (* ak_done *)
     intros o p' v Hp' Hk' Hph'. destruct (get_op s o) as [p|] eqn:Hp.
@@ -331,7 +356,7 @@ Proof.
       * destruct (slot_case_static _ _ _ HC) as (Eph & _ & _).
         assert (Hsp : o_slot p = SlVal v) by (eapply Hd; [exact Hp|congruence|congruence]).
         destruct HC as [->|a out Ee -> Hnp Hin|Ee ->]; [exact Hsp|congruence|congruence].
-    + destruct (step_new_op s l o p' Hp Hp') as (k & a & caller & tmo & fn & q & s1 & evs & -> & Hid & Hk & Ht & _ & Hqph & Hqsl & HS & HB & _ & _ & _ & _).
+    + destruct (step_new_op s l o p' Hp Hp') as (k & a & caller & tmo & fn & q & s1 & evs & -> & Hid & Hk & Htg & _ & Hqph & Hqsl & HS & HB & _ & _ & _ & _).
       destruct (static_fields _ _ (os_static _ _ _ _ _ _ HS)) as (_ & Ek & _).
       inversion HB; subst; congruence.
 Qed.
@@ -359,7 +384,7 @@ Section Run.
     o_slot p = SlVal v /\
     exists a out, In (EvHandleExit a o out) (s_trace S) /\ hval out = v /\ out <> HPanic.
   Proof.
-    intros Hp Hk Hph. destruct (ask_ok_run f ls) as [_ _ Hv Hd].
+    intros Hp Hk Hph. destruct (ask_ok_run f ls) as [_ _ _ Hv Hd].
     pose proof (Hd o p v Hp Hk Hph) as Hs. split; [exact Hs|]. eapply Hv; eassumption.
   Qed.
 
@@ -369,8 +394,8 @@ Section Run.
     get_op S o = Some p -> o_ph p = OWaitReply -> get_actor S (o_tgt p) = Some x -> ended_pc (a_pc x) ->
     o_slot p <> SlEmpty.
   Proof.
-    intros Hp Hph Hx Hend Hs. destruct (ask_ok_run f ls) as [Hw Hsl _ _].
-    pose proof (Hw o p Hp Hph) as Hacc. apply (accepted_iff_logged f ls _ x _ _ Hx) in Hacc.
+    intros Hp Hph Hx Hend Hs. destruct (ask_ok_run f ls) as [Hw _ Hsl _ _].
+    pose proof (proj2 (Hw o p Hp Hph)) as Hacc. apply (accepted_iff_logged f ls _ x _ _ Hx) in Hacc.
     destruct (cores_ok_run f ls _ x Hx) as [_ _ _ _ k5 _ _].
     destruct (Hsl _ x o p Hx Hacc Hp Hs) as [[_ Hc]|Hpc].
     - apply k5 in Hend. congruence.
